@@ -767,7 +767,7 @@ func (c *Ctx) emitMany(os []*Oblig, allAxioms bool) (string, bool) {
 				continue
 			}
 			for _, arg := range c.appArgs[a.App] {
-				if seenG[arg.S] && len(argSyms[arg.S]) <= 3 {
+				if seenG[arg.S] && len(argSyms[arg.S]) <= 4 {
 					goalSyms[a.Sym] = true
 				}
 			}
@@ -826,7 +826,7 @@ func (c *Ctx) emitMany(os []*Oblig, allAxioms bool) (string, bool) {
 	b.WriteString("(declare-sort Ref 0)\n(declare-sort Str 0)\n(declare-sort Iface 0)\n(declare-sort Opq 0)\n")
 	b.WriteString("(declare-fun nil_ref () Ref)\n(declare-fun nil_iface () Iface)\n(declare-fun nil_opq () Opq)\n")
 	b.WriteString("(declare-fun strlen (Str) (_ BitVec 64))\n(declare-fun strat (Str (_ BitVec 64)) (_ BitVec 8))\n")
-	b.WriteString("(declare-fun strcat (Str Str) Str)\n")
+	b.WriteString("(declare-fun strcat (Str Str) Str)\n(declare-fun str_of_rune ((_ BitVec 32)) Str)\n")
 	if preambleText != "" {
 		b.WriteString(preambleText)
 		b.WriteString("\n")
@@ -848,7 +848,7 @@ func (c *Ctx) emitMany(os []*Oblig, allAxioms bool) (string, bool) {
 		if need[t.S] {
 			lits = append(lits, t.S)
 			fmt.Fprintf(&b, "(assert (= (strlen %s) %s))\n", t.S, bvLitI(64, int64(len(s))).S)
-			for i := 0; i < len(s) && i < 8; i++ {
+			for i := 0; i < len(s) && i < 64; i++ {
 				fmt.Fprintf(&b, "(assert (= (strat %s %s) %s))\n", t.S, bvLitI(64, int64(i)).S, bvLitI(8, int64(s[i])).S)
 			}
 		}
